@@ -235,7 +235,8 @@ class DelimSource(Source[Iterable[str]]):
                 if text[-1] == '\r':
                     #the '\n' of a '\r\n' terminator may open the next chunk
                     pending = lines.pop() + '\r'
-                elif text[-1] != '\n':
+                elif text[-1].splitlines()[0]:
+                    #the last character is not one of the line boundaries splitlines knows so the last line may continue
                     pending = lines.pop()
                 yield from lines
             if pending is not None:
